@@ -21,7 +21,7 @@ import (
 )
 
 var probeNames = []string{"query_present", "query_with_slash", "query_with_trackid", "path_segment_like_trackid", "percent_escape",
-	"userinfo_present", "ipv6_authority", "hostname_authority", "record_variant", "control_relative", "control_absolute",
+	"userinfo_present", "userinfo_password_only", "ipv6_authority", "hostname_authority", "record_variant", "control_relative", "control_absolute",
 	"control_query_style", "control_leading_slash", "content_base_absent", "session_level_control", "setup_subset_or_permuted",
 	"script_completed", "media_identity_checked", "keepalive_observed", "authenticated_retry", "raw_path_kept", "udp_transport",
 	"control_empty_or_star", "base_other_host", "content_base_relative", "request_lines_checked", "tunnel_http", "tunnel_ws", "back_channel_in_stream"}
@@ -66,6 +66,9 @@ func scenarioProbes(w *sys.World, sc *Scenario) {
 	}
 	if strings.Contains(sc.rawPath(), "%") {
 		w.Probe("percent_escape")
+	}
+	if sc.PassOnly {
+		w.Probe("userinfo_password_only")
 	}
 	if sc.User != "" {
 		w.Probe("userinfo_present")
@@ -219,7 +222,7 @@ func checkRequestLines(w *sys.World, sc *Scenario, tp *wireTap) []wireReq {
 	if len(reqs) > 0 {
 		w.Probe("request_lines_checked")
 	}
-	if sc.User == "" {
+	if sc.User == "" && !sc.PassOnly {
 		return reqs
 	}
 	for i, r := range reqs {
